@@ -154,6 +154,8 @@ func (fc *FnCtx) safety(st *State, what string, pos token.Pos, src string, goal 
 		detail += " " + src
 	}
 	fc.vc.oblige(st, "safety", what, detail, fc.e.pos(pos), goal)
+	// execution continues past this point only if the check passed
+	st.guard = fc.vc.define("g_ok", SBool, mkAnd(st.guard, goal))
 }
 
 func (fc *FnCtx) nilCheck(st *State, v ssa.Value, pos token.Pos) {
@@ -308,7 +310,7 @@ func (fc *FnCtx) execBlock(b *ssa.BasicBlock, st *State) []edgeOut {
 			for i, r := range x.Results {
 				rs = append(rs, fc.coerce(fc.val(r), fc.fn.Signature.Results().At(i).Type()))
 			}
-			fc.rets = append(fc.rets, retInfo{st: st, results: rs, ord: fc.retOrd[x], pos: x.Pos()})
+			fc.rets = append(fc.rets, retInfo{st: st, results: rs, ord: fc.retOrd[x], pos: x.Pos(), blk: b, instr: x})
 			return nil
 		case *ssa.Panic:
 			fc.safety(st, "panic", x.Pos(), fc.srcOf(x.Pos(), "call"), "false")
